@@ -301,6 +301,43 @@ func (w *World) onApplied(n *Node, e *blockEntry, au consensus.ApplyUpdate, firs
 			w.stats.Inc("reach.foundation-subsidy")
 		}
 	}
+	if first {
+		// a contract is paid out once: the update of one block never creates both
+		// the outputs of a contract's successful end and those of its failure
+		created := map[types.SiacoinOutputID]bool{}
+		for _, d := range au.SiacoinElementDiffs() {
+			if d.Created {
+				if created[d.SiacoinElement.ID] {
+					w.violate("C02", "output-created-twice", fmt.Sprintf("node %d, block %s (height %d): the update creates siacoin output %v twice", n.idx, short(e.id), e.height, d.SiacoinElement.ID))
+				}
+				created[d.SiacoinElement.ID] = true
+			}
+		}
+		for _, d := range au.FileContractElementDiffs() {
+			if !d.Resolved {
+				continue
+			}
+			fc := d.FileContractElement.FileContract
+			if d.Revision != nil {
+				fc = *d.Revision
+			}
+			valid, missed := 0, 0
+			for i := range fc.ValidProofOutputs {
+				if created[d.FileContractElement.ID.ValidOutputID(i)] {
+					valid++
+				}
+			}
+			for i := range fc.MissedProofOutputs {
+				if created[d.FileContractElement.ID.MissedOutputID(i)] {
+					missed++
+				}
+			}
+			if valid > 0 && missed > 0 {
+				w.violate("C02", "contract-resolved-twice", fmt.Sprintf("node %d, block %s (height %d): the update pays out v1 contract %v both as proven (%d outputs) and as missed (%d outputs)", n.idx, short(e.id), e.height, d.FileContractElement.ID, valid, missed))
+			}
+			w.stats.Inc("probe.c02.v1-resolution-paid-once")
+		}
+	}
 	if l := w.ledgers[e.id]; l != nil && l.Forest != nil {
 		var touched []uint64
 		for _, d := range au.SiacoinElementDiffs() {
